@@ -124,6 +124,10 @@ macro_rules! va { ($($V:ident)+) => { $( impl VA for $V<S> {
             ("reduce_bitxor", a.reduce_bitxor(), lf("bitxor")),
             ("reduce_min (Ord)", a.reduce_min(), lf("ord_min")),
             ("reduce_max (Ord)", a.reduce_max(), lf("ord_max")),
+            // folds keep element order: for an element type whose + or * is not associative (floats) the grouping
+            // is observable, and the grouping of a fold in element order is the left fold's
+            ("sum = left fold of + in element order", a.sum(), lf("add")),
+            ("product = left fold of * in element order", a.product(), lf("mul")),
         ]
     }
     /// forking operations: returns (vector result, mask result, bool result)
@@ -197,8 +201,11 @@ fn p(name: &str, args: &[S]) -> Fm {
 fn is(b: bool, f: Fm) -> Fm {
     iff(lit(b), f)
 }
-fn ord_ops<V: VA>(which: usize) {
+fn ord_ops<V: VA>(which: usize, near: Option<bool>) {
     set_max_decisions(200);
+    // wide vectors: 2^N outcome patterns of the N per-lane comparisons are out of reach; explore the pattern in
+    // which every comparison has the outcome `first` and the N patterns with exactly one lane deviating
+    if let Some(first) = near { explore_near(first, 1); }
     let (a, b) = (symv("a", V::N), symv("b", V::N));
     let (r, mask, flag) = V::ord_ops(which, V::of(&a), V::of(&b));
     let sel = |c: Fm, x: S, y: S, got: S| or(vec![and(vec![c.clone(), eq(got, x)]), and(vec![not(c), eq(got, y)])]);
@@ -228,6 +235,7 @@ fn ord_ops<V: VA>(which: usize) {
     }
 }
 
+const ORD_NAMES: [&str; 18] = ["partial_min", "partial_max", "reduce_partial_min", "reduce_partial_max", "cmpeq", "cmpne", "cmpge", "cmpgt", "cmple", "cmplt", "partial_cmpeq", "partial_cmpne", "partial_cmpge", "partial_cmpgt", "partial_cmple", "partial_cmplt", "is_any_negative", "are_all_positive"];
 pub fn list() -> Vec<Entry> {
     let mut v: Vec<Entry> = vec![];
     macro_rules! per { ($tier:expr, $small:expr; $($V:ident)+) => { $(
@@ -236,9 +244,11 @@ pub fn list() -> Vec<Entry> {
         v.push((format!("c02/mul_add/{}", stringify!($V)), "C02", $tier, vec!["MulAdd (8 forms)", "V::mul_add"], Box::new(|| muladds::<$V<S>>())));
         v.push((format!("c02/ctors/{}", stringify!($V)), "C02", $tier, vec!["broadcast", "zero", "one", "iota", "from tuple/array/slice/iterator", "into_array", "into_tuple", "as_slice", "into_iter", "as_"], Box::new(|| ctors::<$V<S>>())));
         v.push((format!("c02/maps/{}", stringify!($V)), "C02", $tier, vec!["map", "map2", "map3", "apply*", "zip", "hadd", "min", "max"], Box::new(|| maps::<$V<S>>())));
-        v.push((format!("c02/folds/{}", stringify!($V)), "C02", $tier, vec!["reduce", "reduce_bit*", "reduce_min", "reduce_max"], Box::new(|| folds::<$V<S>>())));
+        v.push((format!("c02/folds/{}", stringify!($V)), "C02", $tier, vec!["reduce", "reduce_bit*", "reduce_min", "reduce_max", "sum", "product"], Box::new(|| folds::<$V<S>>())));
         if $small {
-            for w in 0..18usize { v.push((format!("c02/ord/{}/{}", ["partial_min", "partial_max", "reduce_partial_min", "reduce_partial_max", "cmpeq", "cmpne", "cmpge", "cmpgt", "cmple", "cmplt", "partial_cmpeq", "partial_cmpne", "partial_cmpge", "partial_cmpgt", "partial_cmple", "partial_cmplt", "is_any_negative", "are_all_positive"][w], stringify!($V)), "C02", $tier, vec!["partial_min/max", "reduce_partial_*", "cmp*", "partial_cmp*", "is_any_negative", "are_all_positive"], Box::new(move || ord_ops::<$V<S>>(w)))); }
+            for w in 0..18usize { v.push((format!("c02/ord/{}/{}", ORD_NAMES[w], stringify!($V)), "C02", $tier, vec!["partial_min/max", "reduce_partial_*", "cmp*", "partial_cmp*", "is_any_negative", "are_all_positive"], Box::new(move || ord_ops::<$V<S>>(w, None)))); }
+        } else {
+            for w in 0..18usize { for first in [true, false] { v.push((format!("c02/ord_near_{}/{}/{}", if first { "true" } else { "false" }, ORD_NAMES[w], stringify!($V)), "C02", if $V::<S>::N > 16 { 1 } else { $tier }, vec!["partial_min/max", "reduce_partial_*", "cmp*", "partial_cmp*", "is_any_negative", "are_all_positive"], Box::new(move || ord_ops::<$V<S>>(w, Some(first))))); } }
         }
     )+ } }
     per!(0, true; Vec2 Vec3 Vec4 Extent2 Extent3 Rgb Rgba Uv Uvw);
